@@ -224,8 +224,8 @@ func main() {
 	wb.Close()
 
 	// ---------------- range and round robin
-	wr := &cf.Writer{Dir: *out, Prefix: "cases_range", Imports: imports, CaseType: "rcase", MismatchFn: "mismatches_range", ShardSize: 120}
-	wq := &cf.Writer{Dir: *out, Prefix: "cases_rr", Imports: imports, CaseType: "rrcase", MismatchFn: "mismatches_rr", ShardSize: 120}
+	wr := &cf.Writer{Dir: *out, Prefix: "cases_range", Imports: imports, CaseType: "rcase", MismatchFn: "mismatches_range", ShardSize: 60}
+	wq := &cf.Writer{Dir: *out, Prefix: "cases_rr", Imports: imports, CaseType: "rrcase", MismatchFn: "mismatches_rr", ShardSize: 40}
 	addRange := func(in bg.Input, kind string) {
 		plan, err := sarama.BalanceStrategyRange.Plan(in.MemberMap(), in.TopicMap())
 		if err != nil {
